@@ -338,10 +338,21 @@ theorem insert_in_place_is_the_source_u32 {D : Type} (g : Rng D) (fuel e sz cap 
   ⟨fun hc h => insert_dense_is_the_source_u32 g fuel e sz cap a hc d h,
    fun bits hb h => insert_heap_is_the_source_u32 g fuel e sz cap bits a he hb hn d h⟩
 theorem insert_in_place_plain_is_the_source_u32 {D : Type} (g : Rng D) (fuel e sz cap bits : Nat) (a : Tbl)
-    (hb : bits = 0 ∨ bits > 32) (hn : a.size < 2 ^ 32) (d : D) {res : (Bool × Nat) × Array Nat}
+    (hb : bits = 0 ∨ bits > 32) (hn : a.size < 2 ^ 32) (d : D) {res : (Bool × Nat × Nat) × Array Nat}
     (h : Gen.insert_big_32 e sz bits a = .ok res) :
-    insert cfg32 g (fuel + 1) (.heap sz cap bits a) e d = armOut cap bits d (.ok res) :=
+    insert cfg32 g (fuel + 1) (.heap sz cap bits a) e d = armOutB cap d (.ok res) :=
   insert_big_is_the_source_u32 g fuel e sz cap bits a hb hn d h
+
+/-- **inserting the placeholder value itself** (the path on which D9 and D13 lived): `p_remove` of the stand-in for 0,
+one draw, the upward scan to the first usable value (greater than 32, not the old placeholder, not a word of the
+table; wrapping), re-insertion of the stand-in, then the in-place paths — the `Big` arm of the source translated in
+full up to the growth point, with the generator's draw as a parameter.  Whenever it returns, the model's `insert`
+returns the same set (new placeholder included), answer and generator state -/
+theorem insert_placeholder_is_the_source_u32 {D : Type} (g : Rng D) (fuel sz cap bits : Nat) (a : Tbl)
+    (hb : bits = 0 ∨ bits > 32) (d : D) (hsmall : a.size + 32 + 3 ≤ 2 ^ 31) {res : (Bool × Nat × Nat) × Array Nat}
+    (h : Gen.insert_bigfull_32 bits sz bits a (modW cfg32 (g.draw d cap bits).1) = .ok res) :
+    insert cfg32 g (fuel + 1) (.heap sz cap bits a) bits d = armOutB cap (g.draw d cap bits).2 (.ok res) :=
+  SC.insert_placeholder_is_the_source_u32 g fuel sz cap bits a hb d hsmall h
 
 end C02
 
